@@ -8,24 +8,32 @@
 (*      LazyEval / LazyIter;                                                *)
 (*  (2) implementation shaped: the generator of data_generator / data_split *)
 (*      as a step machine (one Yield per next() on the root generator; a    *)
-(*      container's generator is the zip of its children's generators; an   *)
-(*      empty dict / list yields itself MAX_ITER times; an empty tuple is   *)
-(*      zip() of nothing and yields nothing).                               *)
+(*      container's generator is the zip of its children's generators).     *)
+(*      Empty containers, repaired code (commit 1398c06, Legacy = FALSE):   *)
+(*      if the whole structure holds at least one array, an empty dict /    *)
+(*      list / tuple yields its empty value without bound (zip stops at the *)
+(*      real children); only a structure without any array yields MAX_ITER  *)
+(*      empties.  Legacy = TRUE is the generator before the repair (empty   *)
+(*      dict / list: MAX_ITER items whatever stands next to them; empty     *)
+(*      tuple: zip() of nothing, no item), kept to recognise a regression.  *)
 (*                                                                          *)
 (* State space: the initial states are the tree shapes; the first step      *)
 (* (Pick) chooses (N, operation, parameter) -- split with batch b in 1..N+1,*)
 (* mask with any boolean mask, index, or "gen" for event-less trees -- and  *)
 (* fills the tree with event ids; Yield / Stop then run the generator.  So  *)
 (* states = shapes + cases + generator positions.  Theorems are invariants. *)
-(* GenRelation characterises exactly where (2) differs from (1); the        *)
-(* stronger GenLossless (= the property C18 for splitting) is NOT a theorem *)
-(* of (2): TLC refutes it and the counterexample is replayed on the code.   *)
+(* GenLossless (= the property C18 for splitting, stated about the          *)
+(* generator) is a theorem of the repaired model for every tree with a      *)
+(* leaf; GenLeafless states the MAX_ITER rule of event-less structures.     *)
+(* For Legacy = TRUE, LegacyRelation says exactly where the old generator   *)
+(* lost events and TLC refutes GenLossless (regression counterexample).     *)
 EXTENDS Integers, Sequences, FiniteSets, TLC, Json, IOUtils, SequencesExt
 
 CONSTANTS MaxNodes,    \* largest number of nodes of a tree
           MaxN,        \* largest number of events for trees of < MaxNodes nodes
           MaxNBig,     \* largest number of events for trees of MaxNodes nodes
           MAX_ITER,    \* the constant of data_generator (1000 in the code)
+          Legacy,      \* TRUE: the generator before commit 1398c06
           Widths       \* leaf widths: 0 = 1-d leaf, w > 0 = 2-d leaf with w columns
 
 VARIABLES cs,          \* the case: [t, d, n, op, b, m] (op = "none": shape chosen only)
@@ -125,6 +133,12 @@ LazyF(d) == Cont("dict", <<F1(d)>>)
 Extra(n) == Cont("dict", <<Vec(MapIdx(n, LAMBDA e : 7000 + e))>>)
 JoinDict(a, x) == Cont("dict", a.ch \o x.ch)
 LazyEval(d, n) == JoinDict(LazyF(d), Extra(n))
+\* no extra entry (extra = {}, the default): LazyCall.__iter__ zips the batches
+\* of x with _extra_batches().  Repaired code (commit 413e12c): itertools.repeat({}),
+\* unbounded; before: split_generator({}) = MAX_ITER empty dicts, so the zip
+\* stopped after MAX_ITER batches
+LazyLen(n, b) == IF Legacy /\ MAX_ITER < NB(n, b) THEN MAX_ITER ELSE NB(n, b)
+LazyIterNoExtra(d, n, b) == LET ps == Split(d, n, b) IN MapIdx(LazyLen(n, b), LAMBDA j : LazyF(ps[j]))
 LazyIter(d, n, b) == LET ps == Split(d, n, b)
                          xs == Split(Extra(n), n, b)
                      IN MapIdx(Len(ps), LAMBDA j : JoinDict(LazyF(ps[j]), xs[j]))
@@ -132,23 +146,33 @@ LazyIter(d, n, b) == LET ps == Split(d, n, b)
 --------------------------------------------------------------------------
 (* (2) the generator of data_generator, implementation shaped               *)
 \* can the generator of node d deliver its item number j (0-based)?
-RECURSIVE CanYield(_, _, _), Item(_, _, _), GenLen(_, _)
-CanYield(d, j, b) ==
+\* inf: the root structure holds at least one array (the code's _has_leaf(data))
+RECURSIVE CanYield(_, _, _, _), Item(_, _, _), GenLenOf(_, _, _, _)
+EmptyAvail(kind, j, inf, legacy) ==
+    IF legacy THEN (IF kind = "tuple" THEN FALSE              \* zip() of nothing
+                    ELSE j < MAX_ITER)                        \* for i in range(MAX_ITER): yield {}
+    ELSE (IF inf THEN TRUE                                    \* for i in itertools.count(): yield {}
+          ELSE j < MAX_ITER)                                  \* for i in range(MAX_ITER): yield {}
+CanYield(d, j, b, inf) ==
     IF IsLeaf(d) THEN j * b < Len(d.v)                      \* range(0, N, b)
-    ELSE IF Len(d.ch) = 0
-         THEN (IF d.kind = "tuple" THEN FALSE               \* zip() of nothing
-               ELSE j < MAX_ITER)                           \* for i in range(MAX_ITER): yield {}
-         ELSE \A i \in 1..Len(d.ch) : CanYield(d.ch[i], j, b)   \* zip(*children)
+    ELSE IF Len(d.ch) = 0 THEN EmptyAvail(d.kind, j, inf, Legacy)
+         ELSE \A i \in 1..Len(d.ch) : CanYield(d.ch[i], j, b, inf)   \* zip(*children)
 Item(d, j, b) ==
     IF IsLeaf(d) THEN [d EXCEPT !.v = SubSeq(d.v, j * b + 1, Min2((j + 1) * b, Len(d.v)))]
     ELSE [d EXCEPT !.ch = MapIdx(Len(d.ch), LAMBDA i : Item(d.ch[i], j, b))]
-\* closed form of the number of items
-GenLen(d, b) ==
+\* closed form of the number of items; -1 = unbounded
+MinLen(x, y) == IF x = -1 THEN y ELSE IF y = -1 THEN x ELSE Min2(x, y)
+GenLenOf(d, b, inf, legacy) ==
     IF IsLeaf(d) THEN NB(Len(d.v), b)
-    ELSE IF Len(d.ch) = 0 THEN (IF d.kind = "tuple" THEN 0 ELSE MAX_ITER)
-    ELSE LET M[i \in 1..Len(d.ch)] == IF i = 1 THEN GenLen(d.ch[1], b)
-                                      ELSE Min2(M[i - 1], GenLen(d.ch[i], b))
+    ELSE IF Len(d.ch) = 0
+         THEN (IF legacy THEN (IF d.kind = "tuple" THEN 0 ELSE MAX_ITER)
+               ELSE (IF inf THEN -1 ELSE MAX_ITER))
+    ELSE LET M[i \in 1..Len(d.ch)] == IF i = 1 THEN GenLenOf(d.ch[1], b, inf, legacy)
+                                      ELSE MinLen(M[i - 1], GenLenOf(d.ch[i], b, inf, legacy))
          IN M[Len(d.ch)]
+\* of a whole structure (root), in the mode of this run / before the repair
+GenLen(d, b) == GenLenOf(d, b, HasLeaf(d), Legacy)
+LegacyGenLen(d, b) == GenLenOf(d, b, HasLeaf(d), TRUE)
 
 --------------------------------------------------------------------------
 (* the case space                                                           *)
@@ -175,12 +199,12 @@ Choose(c) == /\ phase = "shape"
              /\ UNCHANGED <<k, out>>
 
 Yield == /\ phase = "run"
-         /\ CanYield(cs.d, k, cs.b)
+         /\ CanYield(cs.d, k, cs.b, HasLeaf(cs.t))
          /\ out' = Append(out, Item(cs.d, k, cs.b))
          /\ k' = k + 1
          /\ UNCHANGED <<cs, phase>>
 Stop == /\ phase = "run"
-        /\ ~CanYield(cs.d, k, cs.b)
+        /\ ~CanYield(cs.d, k, cs.b, HasLeaf(cs.t))
         /\ phase' = "done"
         /\ UNCHANGED <<cs, k, out>>
 Pick == phase = "shape" /\ \E c \in CasesOf(cs.t) : Choose(c)
@@ -212,6 +236,14 @@ BatchCallWhole == SplitDone =>
     /\ BatchCall(F3, cs.d, cs.n, cs.b) = F3(cs.d)
     /\ BatchSum(cs.d, cs.n, cs.b) = G(cs.d)
     /\ Merge(LazyIter(cs.d, cs.n, cs.b)) = LazyEval(cs.d, cs.n)
+
+\* LazyCall without extra entries: every batch of x is delivered (repaired
+\* model); the legacy model stops after MAX_ITER batches
+LazyNoExtra == SplitDone =>
+    LET it == LazyIterNoExtra(cs.d, cs.n, cs.b) IN
+    IF ~Legacy \/ NB(cs.n, cs.b) <= MAX_ITER
+    THEN Len(it) = NB(cs.n, cs.b) /\ Merge(it) = LazyF(cs.d)
+    ELSE Len(it) = MAX_ITER /\ Len(it) < NB(cs.n, cs.b)
 
 \* Mask: independent characterisation (set of kept entries, order, shape)
 MaskExact == cs.op = "mask" =>
@@ -245,22 +277,29 @@ IndexExact == cs.op = "index" =>
 
 \* the step machine against its closed form, at every step
 GenPrefix == cs.op \in {"split", "gen"} =>
+    /\ GenLen(cs.d, cs.b) >= 0                                  \* a whole structure never runs unbounded
     /\ Len(out) = k /\ k <= GenLen(cs.d, cs.b)
     /\ (phase = "done" => k = GenLen(cs.d, cs.b))
     /\ (IsSplit => k <= NB(cs.n, cs.b) /\ out = SubSeq(TheSplit, 1, k))
     /\ (cs.op = "gen" => \A j \in 1..k : out[j] = cs.d)
 
-\* where the generator equals the declarative Split, and what happens otherwise
+\* the property C18 for splitting, as a statement about the generator:
+\* a theorem of the repaired model (Legacy = FALSE); refuted for Legacy = TRUE
+GenLossless == (IsSplit /\ phase = "done") => out = TheSplit
+
+\* a structure without any array: MAX_ITER copies of itself (repaired model;
+\* empty tuples included)
+GenLeafless == (~Legacy /\ cs.op = "gen" /\ phase = "done") => k = MAX_ITER
+
+\* where the generator before the repair equalled Split, and what it did otherwise
 Lossless(c) == /\ ~HasEmpty(c.t, {"tuple"})
                /\ (HasEmpty(c.t, {"dict", "list"}) => NB(c.n, c.b) <= MAX_ITER)
-GenRelation == (IsSplit /\ phase = "done") =>
+LegacyRelation == (Legacy /\ IsSplit /\ phase = "done") =>
     IF Lossless(cs) THEN out = TheSplit
     ELSE /\ k < NB(cs.n, cs.b)                                   \* events are lost
          /\ k = IF HasEmpty(cs.t, {"tuple"}) THEN 0 ELSE MAX_ITER
-
-\* the property C18 for splitting, as a statement about the generator:
-\* refuted by TLC (design-level finding), counterexample replayed on the code
-GenLossless == (IsSplit /\ phase = "done") => out = TheSplit
+\* the closed forms of the two models agree exactly on the Lossless cases
+ModelsAgree == IsSplit => (Lossless(cs) <=> LegacyGenLen(cs.d, cs.b) = GenLenOf(cs.d, cs.b, TRUE, FALSE))
 
 TypeOK == /\ phase \in {"shape", "run", "done"} /\ k \in 0..(MAX_ITER + MaxN + MaxNBig + 1)
           /\ cs.op \in {"none", "split", "mask", "index", "gen"}
@@ -273,15 +312,17 @@ CaseOut(c) ==
        [op |-> c.op, t |-> c.t, n |-> c.n, b |-> c.b,
         pieces |-> Split(c.d, c.n, c.b),
         genlen |-> GenLen(c.d, c.b),
-        lossless |-> Lossless(c),
+        legacy_genlen |-> LegacyGenLen(c.d, c.b),
+        legacy_lossless |-> Lossless(c),
         f1 |-> F1(c.d), f2 |-> F2(c.d), f3 |-> F3(c.d), g |-> G(c.d),
-        lazy |-> LazyEval(c.d, c.n)]
+        lazy |-> LazyEval(c.d, c.n), lazy0 |-> LazyF(c.d), lazylen |-> LazyLen(c.n, c.b)]
     ELSE IF c.op = "mask" THEN
        [op |-> c.op, t |-> c.t, n |-> c.n, m |-> c.m, r |-> Mask(c.d, c.m)]
     ELSE IF c.op = "index" THEN
        [op |-> c.op, t |-> c.t, n |-> c.n, d |-> c.d,
         idx |-> {<<p, Index(c.d, p)>> : p \in Paths(c.d)}]
-    ELSE [op |-> c.op, t |-> c.t, n |-> c.n, b |-> c.b, genlen |-> GenLen(c.d, c.b)]
+    ELSE [op |-> c.op, t |-> c.t, n |-> c.n, b |-> c.b, genlen |-> GenLen(c.d, c.b),
+          legacy_genlen |-> LegacyGenLen(c.d, c.b)]
 
 \* (AllCases takes a dummy argument so that TLC does not evaluate it eagerly
 \* at start-up; it is only needed for the table)
@@ -290,7 +331,7 @@ Post ==
     /\ TLCGet("stats").diameter >= 0
     /\ LET all == AllCases(0) IN
        JsonSerialize(IOEnv.OUT_FILE,
-         [max_iter |-> MAX_ITER, ncases |-> Cardinality(all),
+         [max_iter |-> MAX_ITER, legacy |-> Legacy, ncases |-> Cardinality(all),
           nshapes |-> Cardinality(Shapes),
           cases |-> {CaseOut(c) : c \in all}])
 
